@@ -23,6 +23,7 @@ class Flow:
         self.h = fn_hir
         self.calls = []   # (callee, [arg desc], path conditions, line, node)
         self.ops = []     # overloaded operators resolved to a trait method: same shape as calls
+        self.assigns = []  # (target desc, value desc, conditions at the assignment, conditions on entry of the enclosing block, line)
         self.returns = []
         self.on_call = on_call
         env = {}
@@ -208,7 +209,18 @@ class Flow:
             self.returns.append((self.desc(e, env), cond, e.get("l")))
         if k == "Block":
             env = dict(env)
+            entry_cond = cond
             for s in e["b"].get("stmts", []):
+                if s.get("k") in ("Assign", "AssignOp") and isinstance(s.get("a"), dict):
+                    lhs = strip(s["a"])
+                    tgt = ("local", lhs["name"]) if lhs.get("k") == "Path" and lhs.get("res") == "local" else self.desc(s["a"], env)
+                    self.assigns.append((tgt, self.desc(s["b"], env) if isinstance(s.get("b"), dict) else None, cond, entry_cond, s.get("l")))
+                    self.visit(s, env, cond)
+                    # a test made on the old value of the assigned place says nothing about the new one
+                    if tgt and tgt[0] in ("field", "local", "arg", "index", "un"):
+                        key = repr(tgt)
+                        cond = tuple(c for c in cond if key not in repr(c[0]))
+                    continue
                 if s.get("k") == "LetStmt":
                     if "e" in s:
                         self.visit(s["e"], env, cond)
